@@ -122,6 +122,7 @@ class PythonRegex(regex.Regex):
             else:
                 regex_temp.append(symbol)
         regex_temp = self._recombine(regex_temp)
+        regex_temp = self._fill_empty_alternatives(regex_temp)
         regex_temp_dot = []
         for symbol in regex_temp:
             if symbol == ".":
@@ -129,6 +130,19 @@ class PythonRegex(regex.Regex):
             else:
                 regex_temp_dot.append(symbol)
         self._python_regex = " ".join(regex_temp_dot)
+
+    @staticmethod
+    def _fill_empty_alternatives(regex_temp):
+        """ In Python an empty alternative (the empty regex, "a|", "(|a)",
+        "()") matches the empty string: it is written as epsilon """
+        res = []
+        for symbol in regex_temp:
+            if symbol in ("|", ")") and (not res or res[-1] in ("(", "|")):
+                res.append("$")
+            res.append(symbol)
+        if not res or res[-1] == "|":
+            res.append("$")
+        return res
 
     def _preprocess_brackets(self):
         regex_temp = []
